@@ -137,7 +137,16 @@ theorem vals_fin {sh sh' : Shared} {id f push evs} {log : List Ev}
     (V (log ++ evs) sh'.nodes).Perm (V log sh.nodes) ∧ sh'.nextVal = sh.nextVal := by
   unfold execFin at he
   cases hfind : findId sh.nodes id with
-  | none => simp [hfind] at he; obtain ⟨rfl, rfl, rfl⟩ := he; simp [V]
+  | none =>
+    simp only [hfind] at he
+    have hev : evs.filterMap finVal = [] := by
+      unfold execFinStale at he
+      split at he <;> simp only [Option.some.injEq, Prod.mk.injEq] at he <;> obtain ⟨_, _, rfl⟩ := he
+      · rfl
+      · rw [List.filterMap_eq_nil_iff]; intro e hm
+        obtain ⟨d, _, rfl⟩ := List.mem_map.mp hm; rfl
+    obtain ⟨st, dd, rfl, rfl⟩ := execFinStale_cases he
+    simp [V, hev]
   | some n0 =>
     have hfs := findId_some hfind
     simp [hfind] at he; obtain ⟨rfl, rfl, rfl⟩ := he
@@ -241,12 +250,18 @@ theorem flatMap_delOf_nil {l : List Instr} (h : ∀ j ∈ l, delOf j = []) : l.f
     exact ih (fun j hj => h j (List.mem_cons_of_mem _ hj))
 
 theorem dels_fin {sh sh' : Shared} {id f push evs} {log : List Ev} {Q : List Instr}
-    (hnd : (sh.nodes.map (·.id)).Nodup) (he : execFin sh id f = some (sh', push, evs)) :
+    (hnd : (sh.nodes.map (·.id)).Nodup) (he : execFin sh id f = some (sh', push, evs))
+    (hst : sh'.stale = false) :
     sh'.nextDel = sh.nextDel ∧ ∀ d, (D (log ++ evs) sh'.nodes (push ++ Q)).count d =
       (D log sh.nodes (Instr.fin id f :: Q)).count d := by
   unfold execFin at he
   cases hfind : findId sh.nodes id with
-  | none => simp [hfind] at he; obtain ⟨rfl, rfl, rfl⟩ := he; simp [D, delOf]
+  | none =>
+    simp only [hfind] at he
+    unfold execFinStale at he
+    split at he <;> simp only [Option.some.injEq, Prod.mk.injEq] at he <;> obtain ⟨rfl, rfl, rfl⟩ := he
+    · simp [D, delOf]
+    · simp at hst
   | some n0 =>
     have hfs := findId_some hfind
     simp [hfind] at he; obtain ⟨rfl, rfl, rfl⟩ := he
@@ -299,12 +314,12 @@ theorem dels_addDel {sh : Shared} {id d0 : Nat} {log : List Ev} {Q : List Instr}
 
 /-- How one instruction changes the delFunc bookkeeping: nothing is duplicated, only `Delete` adds a fresh id. -/
 theorem dels_rel {sh sh' : Shared} {i push evs} {log : List Ev} {Q : List Instr}
-    (hnd : (sh.nodes.map (·.id)).Nodup) (he : exec sh i = some (sh', push, evs)) :
+    (hnd : (sh.nodes.map (·.id)).Nodup) (he : exec sh i = some (sh', push, evs)) (hst : sh'.stale = false) :
     sh.nextDel ≤ sh'.nextDel ∧ ∀ d, (D (log ++ evs) sh'.nodes (push ++ Q)).count d ≤
       (D log sh.nodes (i :: Q)).count d + (if d = sh.nextDel ∧ sh'.nextDel = sh.nextDel + 1 then 1 else 0) := by
   cases i
   case fin id f =>
-    have := dels_fin (log := log) (Q := Q) hnd he
+    have := dels_fin (log := log) (Q := Q) hnd he hst
     exact ⟨by omega, fun d => by rw [this.2 d]; omega⟩
   case delz k =>
     have := dels_delz (log := log) (Q := Q) hnd he
@@ -341,6 +356,19 @@ theorem dels_rel {sh sh' : Shared} {i push evs} {log : List Ev} {Q : List Instr}
 
 /-! ### `LogOK` in every reachable state -/
 
+theorem stale_mono {sh sh' : Shared} {i push evs} (he : exec sh i = some (sh', push, evs))
+    (hs : sh.stale = true) : sh'.stale = true := by
+  cases i
+  case fin id f =>
+    simp only [exec, execFin] at he
+    split at he
+    · unfold execFinStale at he
+      split at he <;> simp only [Option.some.injEq, Prod.mk.injEq] at he <;> obtain ⟨rfl, _, _⟩ := he
+      · exact hs
+      · rfl
+    · simp only [Option.some.injEq, Prod.mk.injEq] at he; obtain ⟨rfl, _, _⟩ := he; exact hs
+  all_goals (exec_split he <;> simp_all)
+
 theorem logOK_step {sh sh' : Shared} {i push evs} {log : List Ev} {Q : List Instr}
     (h : LogOK sh (i :: Q) log) (hnd : (sh.nodes.map (·.id)).Nodup)
     (he : exec sh i = some (sh', push, evs)) : LogOK sh' (push ++ Q) (log ++ evs) := by
@@ -354,8 +382,13 @@ theorem logOK_step {sh sh' : Shared} {i push evs} {log : List Ev} {Q : List Inst
         rcases List.mem_cons.mp (hp.mem_iff.mp hvm) with rfl | hm
         · omega
         · have := hv.2 v hm; omega
-  · have hd := h.dels
-    have hr := dels_rel (log := log) (Q := Q) hnd he
+  · intro hst'
+    have hst : sh.stale = false := by
+      cases hs : sh.stale with
+      | false => rfl
+      | true => rw [stale_mono he hs] at hst'; cases hst'
+    have hd := h.dels hst
+    have hr := dels_rel (log := log) (Q := Q) hnd he hst'
     have hold : ∀ d, (D log sh.nodes (i :: Q)).count d ≤ 1 := List.nodup_iff_count.mp hd.1
     have hfresh : (D log sh.nodes (i :: Q)).count sh.nextDel = 0 := by
       rw [List.count_eq_zero]; intro hm; have := hd.2 _ hm; omega
@@ -384,13 +417,13 @@ theorem logOK_perm {sh : Shared} {P P' : List Instr} {log : List Ev} (h : LogOK 
   have hperm : (log.filterMap delId ++ sh.nodes.flatMap (·.delFuncs) ++ P'.flatMap delOf).Perm
       (log.filterMap delId ++ sh.nodes.flatMap (·.delFuncs) ++ P.flatMap delOf) :=
     List.Perm.append_left _ (List.Perm.flatMap_right delOf hp.symm)
-  exact ⟨h.vals, hperm.nodup_iff.mpr h.dels.1, fun d hd => h.dels.2 d (hperm.mem_iff.mp hd)⟩
+  exact ⟨h.vals, fun hst => ⟨hperm.nodup_iff.mpr (h.dels hst).1, fun d hd => (h.dels hst).2 d (hperm.mem_iff.mp hd)⟩⟩
 
 theorem logOK_call {sh : Shared} {P : List Instr} {log : List Ev} (h : LogOK sh P log) (c : Call) :
     LogOK sh (startCall c ++ P) log := by
   have : (startCall c ++ P).flatMap delOf = P.flatMap delOf := by
     cases c <;> simp [startCall, delOf]
-  exact ⟨h.vals, by rw [this]; exact h.dels.1, by rw [this]; exact h.dels.2⟩
+  exact ⟨h.vals, fun hst => by rw [this]; exact h.dels hst⟩
 
 theorem logOK_reachable {g : Bool} {s : Sys} (h : Reachable g s) : LogOK s.sh (pending s) s.log := by
   induction h with
@@ -401,7 +434,7 @@ theorem logOK_reachable {g : Bool} {s : Sys} (h : Reachable g s) : LogOK s.sh (p
       | zero => rfl
       | succ n ih => simp [List.replicate_succ] at ih ⊢
     rw [hp]
-    exact ⟨by simp [Sys.init, Shared.new], by simp [Sys.init, Shared.new]⟩
+    exact ⟨by simp [Sys.init, Shared.new], fun _ => by simp [Sys.init, Shared.new]⟩
   | @step s s' a hr hs ih =>
     have hinv := inv_reachable hr
     cases a with
